@@ -1,7 +1,7 @@
 (** C06 on the source, over histories: every state an Encoder or a Decoder can reach when every step (constructor
     included) is performed by the REGENERATED code satisfies the table invariant -- size accounting exact, within the
-    maximum, entries = the longest fitting prefix.  (Reported in C06's evidence, not part of its verdict: it needs
-    every Encoder/Decoder bridge, whereas C06's own tie is the table bridges and the table/dec/pair families.) *)
+    maximum, entries = the longest fitting prefix.  (An obligation of C06: the property speaks of both classes, and a method that
+    reached into the table behind HeaderTable's back would leave the table bridges intact.) *)
 From Coq Require Import ZArith List Bool.
 From HV Require Import Prelude.Py Prelude.State Spec.DynTable.
 From HV Require Import Model.Data Model.Table Model.Decoder Model.Encoder Model.Api.
